@@ -29,7 +29,9 @@ EXHAUSTIVE = {"quick": "all profiles of 1-2 distinct complete weak orders, m<=3,
 TRUSTED = ["(R) not verified, compared with the verified reference spw_decide on bounded inputs: is_single_peaked_pq_tree "
            "(isC1P / PQ-tree internals of consecutive_ones.py), is_single_peaked_ILP (constraint builders + python-mip/CBC), "
            "is_single_peaked (ELO); is_single_peaked_axis and sp_cons_ones_matrix are mirrored (Model/SP.v)"]
-ASSUMPTIONS = ["orders are complete over the instance's alternatives, classes non-empty, axis = permutation of the "
+ASSUMPTIONS = ["ids may be negative Python ints: such profiles are sent to the model relabelled by the injective shift "
+               "id -> id - min id (the axis test only compares ids for equality)",
+               "orders are complete over the instance's alternatives, classes non-empty, axis = permutation of the "
                "alternatives (quantifier of C11); instance.orders holds distinct orders"]
 COVER_FILES = ['properties/subdomains/ordinal/singlepeaked/singlepeakedness.py', 'properties/subdomains/consecutive_ones.py']
 TIMEOUT_S = 180.0            # per chunk of CHUNK cases (ILP-heavy chunks on a loaded machine)
@@ -329,6 +331,16 @@ def generate(tier, seed):
         prof = distinct_semantic([rand_weak_order(rng, alts, p_tie=(0.0 if dt == 1 else 0.5), complete=complete)
                                   for _ in range(n)])
         out.append(case("c11.gate", [dt, alts, prof, rand_perm(rng, alts)], gate=1))
+    # ---- negative / mixed-sign ids for the axis test (relabelled by an injective shift for the model)
+    for i in range(300 if not thorough else 2000):
+        m = rng.randint(2, 6)
+        lo_ = rng.choice([-1, -m, -m // 2, -10 ** 6, -2])
+        alts = rng.sample(range(lo_, lo_ + rng.choice([m, m, 12])), m)
+        prof = rand_profile(rng, alts, styles[i % len(styles)])
+        allax = list(itertools.permutations(alts))
+        add_axes = allax if m <= 4 else rng.sample(allax, 24)
+        out.append(case("c11.axes", [dtype_of(prof), list(alts), prof, [list(a) for a in add_axes]], m=m, kind="negative-ids"))
+
     # ---- LONG weak orders (class indices, ids, class sizes beyond 256 - CPython caches the ints -5..256): one voter
     #      single-plateaued on the axis with >= 258 indifference classes and ties between neighbours of the axis at class
     #      indices >= 257 on the far side of the peak; also a plateau of > 256 tied alternatives, ids > 256
@@ -664,7 +676,9 @@ def oracle_requests(c, r):
     op, pl = c["op"], c["payload"]
     if op == "c11.axes":
         dt, alts, profile, axes = pl
-        return [("c11.axis_test", [dt, profile, ax]) for ax in axes]
+        off = max(0, -min(alts)) if alts else 0       # negative ids: injective shift into N (relabelling invariance)
+        sh = (lambda x: [sh(y) for y in x] if isinstance(x, list) else x + off)
+        return [("c11.axis_test", [dt, sh(profile), sh(ax)]) for ax in axes]
     if op == "c11.deciders":
         dt, alts, profile, flags = pl
         reqs = [("c11.decide", [alts, profile]), ("c11.pq_tree", [dt, alts, profile]), ("c11.ilp", [dt, alts, profile])]
